@@ -61,7 +61,8 @@ META = dict(
               'agreement of the result serialiser; effect analysis'
               '; must-store / partition analysis of the result payload through local '
               'aliases, pack/unpack pairing by effect, restored-name coverage from th'
-              "e strategies' result construction sites",
+              "e strategies' result construction sites"
+              "; distinct cache names of a result's remembered quantities; writer/reader pairing of the fitted image's name; subset test of FitResult.forward on the flat dimension; deep evaluation of Lens.raw_fields for surviving constructor-time state",
     level_text='Static: L1-L6 are decided for every model / data (they are facts '
                'about which values reach which call and which attributes exist '
                'when).  Optimiser dynamics (fixed point, monotone improvement, '
